@@ -22,5 +22,6 @@ ec0e3d2 C14
 1ed1a66 C12
 0ec3bca C18
 13d41b4 C09
+7d4c0eb C06
 LIST
 git -C /repo status --short | head -3
